@@ -428,6 +428,7 @@ func (c *CheckCtx) crossSolvers() {
 	dis := 0
 	checked := 0
 	jobsRechecked := 0
+	heavy := 0
 	var used []string
 	for _, sv := range []string{"z3-new", "cvc5"} {
 		r2 := &Runner{L: c.L, solver: sv, timeoutMs: c.R.timeoutMs, workers: c.R.workers, deadline: c.R.deadline}
@@ -438,7 +439,14 @@ func (c *CheckCtx) crossSolvers() {
 			step = (len(c.Results) + maxCross - 1) / maxCross
 		}
 		var jobs []Job
+		heavy = 0
 		for i := 0; i < len(c.Results); i += step {
+			// jobs with hundreds of paths are re-decided by the deciding solver's own
+			// portfolio only: a second and third full exploration costs tens of minutes
+			if c.Results[i].Paths > 400 {
+				heavy++
+				continue
+			}
 			jobs = append(jobs, c.Results[i].Job)
 		}
 		jobsRechecked = len(jobs)
@@ -465,7 +473,7 @@ func (c *CheckCtx) crossSolvers() {
 		}
 	}
 	c.Extra["cross_solver"] = map[string]interface{}{"solvers": used, "obligations_rechecked": checked, "disagreements": dis,
-		"jobs_rechecked_per_solver": jobsRechecked, "jobs_total": len(c.Results)}
+		"jobs_rechecked_per_solver": jobsRechecked, "jobs_total": len(c.Results), "jobs_with_more_than_400_paths_not_rechecked": heavy}
 }
 
 func (c *CheckCtx) auditSimplifier() {
